@@ -28,7 +28,7 @@ import re
 import z3
 
 from pvc.harness import unit, venv_run
-from pvc import src as S, kern as K, ev as E, classes as CL, symdict as SD
+from pvc import src as S, kern as K, ev as E, classes as CL, symdict as SD, twin as T
 from pvc.val import *  # noqa
 from pvc import val as V
 
@@ -613,3 +613,101 @@ def native_bounded(ctx):
     for k, v in res.items():
         ctx.bounded(k, v["ok"], scope=scope, cases=v["cases"], witness=v.get("witness"),
                     replay={"handler": "bounded_named", "input": {"what": "create_functions", "check": k}} if not v["ok"] else None)
+
+
+# ---------------------------------------------------------------------------------------------
+# the type resolution of the pressure / temperature fixing elements, for every (pressure, temperature, type)
+
+@unit("C16", "auto_ext_grid_type", functions=[CR + ":_auto_ext_grid_type"], engine="E1")
+def auto_ext_grid_type(ctx):
+    """documented rule: a value counts as NOT GIVEN iff it is None or NaN (0 bar / 0 K are values); both missing is an
+    error; 'auto' resolves to the letters of the given values; an explicit type needs its own values; 'tp' is 'pt'"""
+    ctx.assume("A6")
+    from pvc import symdict as SD
+    from pvc.ev import Obj
+    p, t = SD.PV(z3.Const("p_bar", SD.PyVal)), SD.PV(z3.Const("t_k", SD.PyVal))
+    comp = Obj("comp", {"__name__": "ExtGrid"})
+    for typ in ("auto", "p", "t", "pt", "tp", "something-else"):
+        paths = T.run_paths(ctx, CR + ":_auto_ext_grid_type", lambda _typ=typ: ([p, t, _typ, comp], {}))
+        ctx.decided("%s/paths" % typ, "cover", len(paths) >= 2, witness=str(len(paths)))
+        p_null = z3.Or(p.is_none(), p.isnan())
+        t_null = z3.Or(t.is_none(), t.isnan())
+        if typ == "auto":
+            want = [(z3.And(z3.Not(p_null), z3.Not(t_null)), "pt"), (z3.And(z3.Not(p_null), t_null), "p"),
+                    (z3.And(p_null, z3.Not(t_null)), "t")]
+            err = z3.And(p_null, t_null)
+        else:
+            need_p, need_t = typ != "t", typ != "p"
+            err = z3.Or(z3.And(p_null, t_null), z3.And(p_null, need_p) if need_p else False,
+                        z3.And(t_null, need_t) if need_t else False)
+            want = [(z3.Not(err), "pt" if typ == "tp" else typ)]
+        ax = SD.pv_axioms()
+        facts = T.all_facts(paths)
+        raises = z3.Or(*[pp.cond() for pp in paths if pp.exc is not None]) if any(pp.exc is not None for pp in paths) else z3.BoolVal(False)
+        ctx.ob("%s/rejected-iff-a-needed-value-is-missing" % typ, "ensures", ax + facts, raises == err)
+        for cond, res in want:
+            g = z3.And(*[z3.Implies(z3.And(pp.cond(), cond), z3.BoolVal(pp.exc is None and pp.result == res)) for pp in paths])
+            ctx.ob("%s/resolves-to-%s" % (typ, res), "ensures", ax + facts, g)
+        ctx.decided("%s/only-UserWarning-is-raised" % typ, "ensures",
+                    all(pp.exc is None or "UserWarning" in str(pp.exc) for pp in paths),
+                    witness=str([str(pp.exc) for pp in paths]))
+
+
+# ---------------------------------------------------------------------------------------------
+# std-type parameters are COPIED out of the library: creating an element never writes net.std_types
+
+CTBX = "pandapipes.component_models.component_toolbox"
+
+
+@unit("C16", "retrieve_u", functions=[CTBX + ":retrieve_u"], engine="E1")
+def retrieve_u_contract(ctx):
+    """retrieve_u(params) returns a dictionary that is never the argument object and leaves the argument (an entry of
+    the std-type library) unwritten, on every path -- so later overrides (k_mm=, u_w_per_m2k=) by the create functions
+    cannot change the library and a second element of the same type still equals the type's parameters"""
+    ctx.assume("A6")
+    keys = ["u_w_per_m2k", "u_w_per_mk", "outer_diameter_mm", "inner_diameter_mm", "nominal_width_mm"]
+    made = []
+
+    def mk():
+        d = SD.SymDict(keys + [SD.KAPPA], "params")
+        made.append(d)
+        return [d], {}
+    try:
+        paths = T.run_paths(ctx, CTBX + ":retrieve_u", mk)
+    except Unsupported as e:
+        paths = None
+        why = str(e)
+    if paths is not None:
+        ok = len(paths) >= 2
+        ctx.decided("paths", "cover", ok, witness=str(len(paths)))
+        normal = [p for p in paths if p.exc is None]
+        ctx.decided("result-is-never-the-argument-object", "frame",
+                    all(p.result is not p.args[0][0] for p in normal) and len(normal) >= 1,
+                    witness="a path returns its argument: the caller's later params[...] = ... stores write the std-type library")
+        ctx.decided("argument-is-not-written", "frame", all(not p.args[0][0].writes for p in paths),
+                    witness=str([p.args[0][0].writes for p in paths]))
+        return
+    # the arithmetic of the conversion is outside the untyped-value domain: decide the aliasing clause on the AST
+    f = S.get_function(CTBX + ":retrieve_u")
+    ctx.use_function(f)
+    body = [st for st in f.node.body if not (isinstance(st, ast.Expr) and isinstance(st.value, ast.Constant))]
+    idx = [k for k, st in enumerate(body) if isinstance(st, ast.Assign) and ast.unparse(st.targets[0]) == "params"
+           and ast.unparse(st.value) in ("copy.deepcopy(params)", "deepcopy(params)", "dict(params)", "params.copy()", "{**params}")]
+    ctx.decided("argument-is-copied", "frame", len(idx) >= 1, witness="no `params = copy.deepcopy(params)` at the top level (%s)" % why)
+    if not idx:
+        return
+    before = body[:idx[0]]
+    bad = []
+    for st in before:
+        for n in ast.walk(st):
+            if isinstance(n, ast.Return) and n.value is not None and "params" in [x.id for x in ast.walk(n.value) if isinstance(x, ast.Name)]:
+                bad.append("line %d returns the argument object before it is copied: %s" % (n.lineno, ast.unparse(n)))
+            if isinstance(n, (ast.Assign, ast.AugAssign, ast.Delete)):
+                tg = n.targets if isinstance(n, (ast.Assign, ast.Delete)) else [n.target]
+                for t_ in tg:
+                    if isinstance(t_, ast.Subscript) and ast.unparse(t_.value) == "params":
+                        bad.append("line %d writes the argument before it is copied: %s" % (n.lineno, ast.unparse(n)))
+            if isinstance(n, ast.Call) and isinstance(n.func, ast.Attribute) and ast.unparse(n.func.value) == "params" \
+                    and n.func.attr in ("update", "pop", "setdefault", "clear", "popitem"):
+                bad.append("line %d mutates the argument before it is copied: %s" % (n.lineno, ast.unparse(n)))
+    ctx.decided("no-return-of-or-store-into-the-argument-before-the-copy", "frame", not bad, witness="; ".join(bad))
